@@ -95,6 +95,16 @@ if __name__ == "__main__":
                 continue
             meta = json.load(open(os.path.join(sd, "meta.json")))
             res = check(sd)
-            caught = {p: r["exit"] for p, r in res.items() if isinstance(r, dict) and r.get("exit")}
-            rows.append((name, meta.get("property"), caught))
-            print(name, meta.get("property"), "->", caught or "MISSED")
+            if "error" in res:
+                rows.append({"seed": name, "property": meta.get("property"), "title": meta.get("title"), "error": res["error"]})
+                print(name, "ERROR", res["error"])
+                continue
+            caught = {p: {"exit": r["exit"], "first": r["first"]} for p, r in res.items() if r.get("exit")}
+            rows.append({"seed": name, "property": meta.get("property"), "title": meta.get("title"), "function": meta.get("function"),
+                         "caught_by": caught, "round": meta.get("round", 1)})
+            print(name, meta.get("property"), "->", {p: r["exit"] for p, r in caught.items()} or "MISSED")
+        json.dump(rows, open(os.path.join(VERIF, "seeded", "RESULTS.json"), "w"), indent=1)
+        n = len(rows)
+        v = sum(1 for r in rows if any(c["exit"] == 1 for c in r.get("caught_by", {}).values()))
+        f2 = sum(1 for r in rows if r.get("caught_by") and not any(c["exit"] == 1 for c in r["caught_by"].values()))
+        print(f"{n} seeded changes: {v} reported as VIOLATION (exit 1), {f2} only flagged (exit 2), {n - v - f2} missed")
